@@ -145,7 +145,7 @@ EXTRA4 = {
  'C03': 'Companion dimensions of reduce_dim are exactly D<digits>; convolve_dim applies np.convolve with the given weights.',
  'C04': 'The pieces handed to the concatenation are data reads, not variable objects; copyDimension(D, key=K) takes D from the dimension named K.',
  'C05': 'In-place writes on a view of a file that is the input on at least one path are reported.',
- 'C06': 'Besides coordinate keys pncbo copies a variable only when the right operand lacks it; the parse of mask definitions keeps every argument (5 cases).',
+ 'C06': 'Besides coordinate keys pncbo copies a variable only when the right operand lacks it; the parse of mask definitions keeps every argument (5 cases); every name in an expression template that mask_vals evaluates is bound there and no template strips an existing mask (R-MASKTMPL; defect fixed in /repo d50a86d).',
  'C08': 'A day carry is never computed from a value already reduced modulo the day length; the cloud/rain size probe tries the layout the writer emits first.',
  'C10': 'updatetflag stores SDATE/STIME from the rebuilt TFLAG; adddims deletes every dimension only some FTYPE branch creates; applyAlongDimensions has a TSTEP handler that stores SDATE/STIME from decoded times and replaces the arithmetically reduced TFLAG (R-TIMEREDUCE; defect fixed in /repo 3bd4abb).',
  'C11': 'No arithmetic on a YYYYDDD-coded attribute in the new SDATE; the TSTEP store is controlled only by the selector and the number of retained times.',
